@@ -450,6 +450,29 @@ func c20ConcurrentMix(seconds int, seed int64, call func(method string, msg prot
 		}
 		return "/v1.AccountManager/Unlock", &pb.UnlockAccountRequest{Account: "Wallet1/acct1", Passphrase: []byte("pass")}
 	}
+	// Batches over several of the accounts the single-key signers use (multi-key requests overlapping single-key ones).
+	var batchEpoch atomic.Uint64
+	batchEpoch.Store(uint64(seed%1000)*1000 + 100000)
+	batcher := func(r *rand.Rand, i int) (string, proto.Message) {
+		n := 2 + r.Intn(3)
+		sel := r.Perm(4)[:n]
+		if i%2 == 0 {
+			q := &pb.MultisignRequest{}
+			for _, k := range sel {
+				q.Requests = append(q.Requests, &pb.SignRequest{Id: &pb.SignRequest_PublicKey{PublicKey: rig.DetKey("ndw-Wallet1", 1+k).Pub}, Data: randBytes(r, 32), Domain: Dom([]byte{9, 0, 0, 0}, 2)})
+			}
+			return "/v1.Signer/Multisign", q
+		}
+		e := batchEpoch.Add(2)
+		q := &pb.SignBeaconAttestationsRequest{}
+		for _, k := range sel {
+			q.Requests = append(q.Requests, &pb.SignBeaconAttestationRequest{Id: &pb.SignBeaconAttestationRequest_Account{Account: fmt.Sprintf("Wallet1/acct%d", k)}, Domain: Dom(DomainAttester, 0),
+				Data: &pb.AttestationData{Slot: e * 32, BeaconBlockRoot: Root32(1), Source: &pb.Checkpoint{Epoch: e, Root: Root32(2)}, Target: &pb.Checkpoint{Epoch: e + 1, Root: Root32(3)}}})
+		}
+		return "/v1.Signer/SignBeaconAttestations", q
+	}
+	worker(batcher, 8)
+	worker(batcher, 9)
 	for i := 0; i < 3; i++ {
 		worker(lister, i)
 	}
